@@ -323,7 +323,10 @@ struct QueTarget
             if (!sorted(x.M, x.z)) { do_push(x, "a_que_push_back", [&] { return a_que_push_back(q); }, (long)len, o.a[0]); break; }
             std::string e = fresh(x, o.a[0]);
             c.st.add("probe.que_sorted_insert");
+            g_cmp_key = e.data(); g_cmp_key_on_left = false;
             do_push(x, "a_que_push_sort", [&] { return mac ? (void *)A_QUE_PUSH_SORT(unsigned char, q, e.data(), elem_cmp) : a_que_push_sort(q, e.data(), elem_cmp); }, -1, 0, &e);
+            g_cmp_key = nullptr;
+            if (g_cmp_key_on_left && c.ok()) c.fail("key-passed-on-the-left", "a_que_push_sort", "the comparator received the caller's key as its left argument; the documentation puts the key on the right");
             break;
         }
         case Q_PUSH_FORE_SORT:
